@@ -302,6 +302,11 @@ def registry_lists(maxn=4):
             if n and gp[0] != "A":
                 continue        # group names are symmetric
             yield gp
+    # the empty group name is a name like any other (it is what a default-constructed string holds)
+    for n in range(1, 4):
+        for gp in itertools.product(("", "A"), repeat=n):
+            if "" in gp:
+                yield gp
 
 
 def registry_rules(prog, run, rid, aspect):
